@@ -109,6 +109,12 @@ func Bin() string {
 
 func Start(bin string, extraEnv ...string) (*Child, error) {
 	cmd := exec.Command(bin)
+	// LHEXEC_TASKSET=<cpu list> pins the child (the server sizes its worker pools with NumCPU)
+	for _, e := range extraEnv {
+		if strings.HasPrefix(e, "LHEXEC_TASKSET=") && len(e) > len("LHEXEC_TASKSET=") {
+			cmd = exec.Command("taskset", "-c", strings.TrimPrefix(e, "LHEXEC_TASKSET="), bin)
+		}
+	}
 	cmd.Env = append(os.Environ(), extraEnv...)
 	cmd.SysProcAttr = &syscall.SysProcAttr{Pdeathsig: syscall.SIGKILL}
 	in, err := cmd.StdinPipe()
